@@ -154,6 +154,11 @@ func runC06(t *sim.T, tier string) *sim.Violation {
 		if t.Chance(1, 4) {
 			inputs = append(inputs, c06Input{1, append([]byte(nil), b[:t.Choose(len(b))]...), "static-truncated"})
 		}
+		if zo.Comment != "" && t.Chance(1, 2) {
+			cut := 1 + t.Choose(len(zo.Comment))
+			inputs = append(inputs, c06Input{1, append([]byte(nil), b[:len(b)-cut]...), fmt.Sprintf("static%d-cut-inside-archive-comment(-%dB)", i, cut)})
+			t.Probe("archive-comment-cut")
+		}
 	}
 	snaps := make([][]byte, len(inputs))
 	for i := range inputs {
